@@ -344,6 +344,11 @@ func cmdCheck(args []string) int {
 			violations++
 			lines = append(lines, "FAILED-OBLIGATION "+n+" ("+ns.Status+", replayed on the real code)")
 			lines = append(lines, fmt.Sprintf("VIOLATION property=%s replay=%s", prop, replayPath))
+		case ns.Unit != nil && ns.Unit.Aborted != "":
+			// the unit's contract (or the contract of one of its callees) no longer binds to the code — a renamed
+			// parameter, a removed identifier: its proof is incomplete, so a failing obligation of that unit says
+			// nothing yet (the binding error itself is reported as UNDECIDED)
+			undecided = append(undecided, fmt.Sprintf("obligation %s is %s in a unit whose contracts do not bind (%s)", n, ns.Status, firstLines(ns.Unit.Aborted, 1)))
 		case strings.HasPrefix(rnote, "arbiter-passed: "):
 			// the unit has a reference-model replay (exhaustive small + random histories against an executable
 			// model of the property) and the real code passes it: a proof that no longer goes through — typically
@@ -353,7 +358,14 @@ func cmdCheck(args []string) int {
 			// the failing path calls a function that has no contract (and had none, or did not exist, when the
 			// baseline was taken): its effects are havoc'd, so the model may be spurious. Modular verification
 			// cannot decide this obligation until that function is given a contract.
-			undecided = append(undecided, fmt.Sprintf("obligation %s is %s after a call to %s, which has no contract: needs a contract (%s)", n, ns.Status, strings.Join(uniq(nt), ", "), rnote))
+			why := "after a call to " + strings.Join(uniq(nt), ", ") + ", which has no contract: needs a contract"
+			for _, t := range nt {
+				if strings.HasPrefix(t, "ensures ") {
+					why = "on a path where a callee's contract no longer binds to its code: " + strings.Join(uniq(nt), "; ")
+					break
+				}
+			}
+			undecided = append(undecided, fmt.Sprintf("obligation %s is %s %s (%s)", n, ns.Status, why, rnote))
 		case inBase || !haveBase || ns.Status == "sat":
 			// an obligation that was discharged on the committed tree and now fails, or a new obligation for
 			// which a solver exhibits a model of the violation
